@@ -41,6 +41,10 @@ void vt_check(bool c, const char* name) {
   }
 }
 void vt_cover(bool, const char*) {}
+bool vt_within(const void* p, const void* base, std::size_t n) {
+  const std::uintptr_t a = reinterpret_cast<std::uintptr_t>(p), b = reinterpret_cast<std::uintptr_t>(base);
+  return a >= b && a - b < n;
+}
 std::uint8_t* vt_alloc_bytes(std::size_t n) {
   std::uint8_t* p = static_cast<std::uint8_t*>(std::malloc(n ? n : 1));
   if (n == 0) { std::free(p); p = static_cast<std::uint8_t*>(std::malloc(0)); }
